@@ -1,18 +1,126 @@
-"""C17 Topic clean/dirty markers reflect the latest change, across restarts."""
+"""C17 Topic clean/dirty markers reflect the latest change, across restarts.
+Part (a): generated single-threaded histories vs. a last-writer model. Part (b): 2-4 real threads racing mark_clean / mark_dirty /
+append on one topic (free-running, seeded yields), then quiescence: the in-memory state must equal the effect of an operation that
+can be last in some linearisation of the recorded call/return history, and the state after an immediate reopen must equal it."""
+import json, time
+from .. import common
+from ..common import Violation, rng_for, fingerprint, fresh_dir, rmdir, pmap
+from ..wsrv import Wsrv, Dead
 from . import seqfam
 
 PROFILE = {'topics': 3, 'nops': (30, 90), 'op_w': [3, 1, 1, 0, 1.5, 1.0, 7], 'read_w': [4, 3, 0, 0, 0, 0, 0],
            'size_w': [9, 1, 0, 0, 0], 'max_bytes': 30_000_000}
 KINDS = {'marker'}
-RULE = ('generated histories of appends, batch appends, mark_topic_clean, mark_topic_dirty, topic_is_clean, in-process reopen and '
+RULE = ('(a) generated histories of appends, batch appends, mark_topic_clean, mark_topic_dirty, topic_is_clean, in-process reopen and '
         'process restart immediately after the last call; expected state per topic: dirty after an append, else the last mark; '
-        'non-trivial = >= 1 reopen and >= 3 marker probes; distinct = distinct op lists')
+        '(b) concurrent histories: 2-4 real threads with 1-4 operations each (mark_clean / mark_dirty / append) racing on one topic, recorded '
+        'with call/return stamps at the API boundary; after the threads join, topic_is_clean must equal the effect of some operation that is '
+        'not followed (return before call) by any other operation, and after drop + reopen (same or fresh process) the reported state must equal '
+        'the in-memory state observed at quiescence; non-trivial = >= 1 reopen and >= 3 marker probes (a) / >= 2 threads with conflicting effects (b); '
+        'distinct = distinct op lists')
+
+def concurrent_worker(task):
+    rng = rng_for(task['seed'], 'C17b', task['idx'])
+    d = fresh_dir('c17')
+    out = {'cases': [], 'inconclusive': []}
+    w = Wsrv(task['binary'], timeout=60)
+    params = {'mode': rng.choice(['strict', {'alo': 2}]), 'sched': rng.choice(['none', 'sync']), 'backend': rng.choice(['fd', 'mmap'])}
+    def open_():
+        return w.send({'op': 'open', 'h': 1, 'dir': d, 'key': 'k', 'via': 'builder', **params})
+    try:
+        if not open_().get('ok'):
+            out['inconclusive'].append('open failed')
+            return out
+        tag = 0
+        for ci in range(task['n']):
+            topic = 'm%d' % ci
+            # random known start state
+            start = rng.choice(['clean', 'dirty', 'fresh'])
+            if start != 'fresh':
+                w.send({'op': 'mark_' + start, 'h': 1, 't': topic})
+            threads = []
+            for _ in range(rng.randint(2, 4)):
+                ops = []
+                for _ in range(rng.randint(1, 4)):
+                    k = rng.choice(['mark_clean', 'mark_dirty', 'mark_clean', 'append'])
+                    if k == 'append':
+                        tag += 1
+                        ops.append({'op': 'append', 'h': 1, 't': topic, 'tag': tag, 'len': rng.choice([16, 100])})
+                    else:
+                        ops.append({'op': k, 'h': 1, 't': topic})
+                threads.append(ops)
+            r = w.send({'op': 'run_concurrent', 'threads': threads, 'sched': {'mode': 'free', 'seed': rng.getrandbits(32) | 1}}, timeout=60)
+            if not r.get('ok'):
+                out['inconclusive'].append('run_concurrent: %r' % r)
+                continue
+            hist = []
+            for ops, hs in zip(threads, r['hist']):
+                for op, h in zip(ops, hs):
+                    if h['res'].get('ok'):
+                        hist.append((h['call'], h['ret'], 'clean' if op['op'] == 'mark_clean' else 'dirty', op['op']))
+            st = w.send({'op': 'is_clean', 'h': 1, 't': topic}).get('clean')
+            possible_last = [e for e in hist if not any(o[0] > e[1] for o in hist)]
+            allowed = {e[2] == 'clean' for e in possible_last}
+            finding = None
+            if st not in allowed:
+                finding = {'cls': 'state-differs-from-every-linearisation', 'detail': {'reported_clean': st, 'possible_last_ops': [e[3] for e in possible_last],
+                                                                                       'history': sorted(hist)[:16]}}
+            # immediate reopen (no sleep): the persisted state must be the state just observed
+            kind = rng.choice(['reopen', 'reopen', 'restart'])
+            w.send({'op': 'drop', 'h': 1})
+            if kind == 'restart':
+                w.close()
+                w = Wsrv(task['binary'], timeout=60)
+            if not open_().get('ok'):
+                out['inconclusive'].append('reopen failed')
+                break
+            st2 = w.send({'op': 'is_clean', 'h': 1, 't': topic}).get('clean')
+            if finding is None and st2 != st:
+                finding = {'cls': 'state-lost-on-reopen(concurrent)', 'detail': {'in_memory_at_quiescence': st, 'after_' + kind: st2, 'history': sorted(hist)[:16]}}
+            conflicting = len({e[2] for e in hist}) > 1
+            out['cases'].append({'fp': fingerprint([task['idx'], ci]), 'nontrivial': conflicting, 'finding': finding,
+                                 'sample': {'params': params, 'threads': [[o['op'] for o in t] for t in threads], 'start': start, 'reopen': kind},
+                                 'replay': {'seed': task['seed'], 'idx': task['idx'], 'case': ci} if finding else None})
+    except Dead as e:
+        out['inconclusive'].append('worker died: %s' % e)
+    finally:
+        w.close()
+        rmdir(d)
+    return out
 
 def run(tier, seed, budget):
-    rep = seqfam.run_family('C17', tier, seed, budget, PROFILE, KINDS, n_quick=150, n_thorough=5000, rule=RULE,
-                            required={'marker_checks': 300, 'reopens': 100},
+    q = tier == 'quick'
+    rep = seqfam.run_family('C17', tier, seed, budget, PROFILE, KINDS, n_quick=120, n_thorough=5000, rule=RULE,
+                            required={'marker_checks': 300, 'reopens': 100, 'concurrent_histories': 100, 'concurrent_histories_conflicting': 50},
                             nontrivial_fn=lambda res: res['stats'].get('reopens', 0) >= 1 and res['stats'].get('marker_checks', 0) >= 3)
+    binary = common.build('wsrv', 'debug')
+    tasks = [{'binary': binary, 'seed': seed, 'idx': i, 'n': 20 if q else 200} for i in range(16 if q else 32)]
+    for t, res in pmap(concurrent_worker, tasks, budget_s=budget):
+        if isinstance(res, Exception):
+            rep.add_inconclusive(repr(res)); continue
+        for m in res['inconclusive']:
+            rep.add_inconclusive(m)
+        for c in res['cases']:
+            rep.add_case(c['fp'], c['nontrivial'], c['sample'])
+            rep.count('concurrent_histories')
+            if c['nontrivial']:
+                rep.count('concurrent_histories_conflicting')
+            if c['finding']:
+                rep.add_violation(Violation('C17', c['finding']['cls'], c['finding']['detail'], ['part:b'], {'kind': 'c17-concurrent', **c['replay']}))
     return rep.finish()
 
 def replay(path):
+    rp = json.load(open(path))
+    if rp['replay'].get('kind') == 'c17-concurrent':
+        r = rp['replay']
+        binary = common.build('wsrv', 'debug')
+        hit = False
+        for _ in range(5):
+            res = concurrent_worker({'binary': binary, 'seed': r['seed'], 'idx': r['idx'], 'n': r['case'] + 1})
+            c = res['cases'][r['case']] if len(res['cases']) > r['case'] else None
+            if c and c['finding'] and c['finding']['cls'] == rp['class']:
+                hit = True
+                break
+        print('REPRODUCED' if hit else 'NOT-REPRODUCED')
+        return 1 if hit else 0
     return seqfam.replay_file(path, stop_on=('dead',))
